@@ -5,7 +5,10 @@
 From Coq Require Import ZArith List.
 From MomoCommon Require Import GenPrelude.
 From C16 Require Gen_Log2_64 Gen_Log2_32 Gen_SegSqrt Gen_SegCnst Fast Log2_Proofs SegMath SegSqrt_Proofs SegCnst_Proofs
-  SegModel SegModel_Inst Gen_ArrSqrt Gen_ArrCnst Gen_ArrLog Gen_ShiftSqrt Gen_ShiftCnst Shift_Proofs Arr_Proofs Arr_Inst.
+  SegModel SegModel_Inst Gen_ArrSqrt Gen_ArrCnst Gen_ArrLog Gen_ShiftSqrt Gen_ShiftCnst Gen_SegFacts Shift_Proofs Arr_Proofs Arr_Inst.
+From Coq Require String.
+Import String.StringSyntax ListNotations.
+Delimit Scope string_scope with string.
 Local Open Scope Z_scope.
 
 (* UIntMath<size_t>::Log2 (de Bruijn multiplication + table after the or-shift cascade) is the integer
@@ -612,3 +615,132 @@ Theorem C16_cnst_arr_removeback_bridge : forall L, 0 <= L <= 62 -> forall segs n
   Gen_ArrCnst.RemoveBack (Gen_SegCnst.GetSegItemIndexes L) (fun _ : Z => Gen_SegCnst.GetItemCount L) segs n c k = if Z.leb k c then Ok (tt, c - k) else Stuck.
 Proof. exact Arr_Inst.cnst_removeback_bridge. Qed.
 Print Assumptions C16_cnst_arr_removeback_bridge.
+
+(* ---- round 8: the glue bodies pinned as AST facts (Gen_SegFacts.v, regenerated from the clang AST on every run) ---- *)
+
+(* the forwarding members and the untranslated ArrayShifter members have exactly these statements *)
+Theorem C16_facts_forwarders :
+  Gen_SegFacts.seg_insert_var = ["InsertCrt(index, ctor{GetMemManager(), itemArgs})"%string] /\
+  Gen_SegFacts.seg_insert_move = ["InsertVar(index, move(item))"%string] /\ Gen_SegFacts.seg_insert_copy = ["InsertVar(index, item)"%string] /\
+  Gen_SegFacts.seg_insert_range = ["pvInsert(index, move(begin), move(end))"%string] /\
+  Gen_SegFacts.seg_insert_ilist = ["pvInsert(index, begin(), end())"%string] /\
+  Gen_SegFacts.seg_pvinsert_singlepass = ["Insert(*this, index, move(begin), move(end))"%string] /\
+  Gen_SegFacts.seg_remove_filter = ["return Remove(*this, itemFilter)"%string] /\
+  Gen_SegFacts.seg_remove_back = ["CHECK"%string; "pvDecCount((mCount - count))"%string] /\
+  Gen_SegFacts.seg_add_back_var = ["AddBackCrt(ctor{GetMemManager(), itemArgs})"%string] /\
+  Gen_SegFacts.seg_add_back_nogrow_var = ["AddBackNogrowCrt(ctor{GetMemManager(), itemArgs})"%string] /\
+  Gen_SegFacts.seg_get_back_item = ["return pvGetItem((mCount - 1))"%string] /\ Gen_SegFacts.seg_index_op = ["return pvGetItem(index)"%string] /\
+  Gen_SegFacts.shifter_insert_nogrow_move = ["InsertNogrow(array, index, make_move_iterator(addressof(item)), 1)"%string] /\
+  Gen_SegFacts.shifter_insert_singlepass = [""%string; "decl memManager = GetMemManager()"%string; "decl count = 0"%string;
+     "for (decl iter = move(begin); operator!=(iter, end); (++iter , ++count)) { InsertCrt((index + count), ctor{memManager, *iter}) }"%string] /\
+  nth 6 Gen_SegFacts.shifter_remove_filter ""%string = "RemoveBack(remCount)"%string.
+Proof. exact Arr_Proofs.facts_forwarders. Qed.
+Print Assumptions C16_facts_forwarders.
+
+(* the glue members under act_of *)
+Theorem C16_facts_insert_n : map Arr_Proofs.act_of Gen_SegFacts.seg_insert_n =
+  [Some Arr_Proofs.AGuardOverflow; Some Arr_Proofs.ADeclMM; Some Arr_Proofs.AHandler; Some Arr_Proofs.AReservePlusCount; Some Arr_Proofs.AShiftInsertN].
+Proof. exact Arr_Proofs.facts_insert_n. Qed.
+Print Assumptions C16_facts_insert_n.
+
+(* sqrt: SegmentedArray::Insert(index, count, item) EXECUTED FROM ITS AST FACTS (the statement list read off the clang AST on every
+   run, each statement interpreted by act_of as a call of regenerated code): overflow guard, handler, Reserve(mCount + count), shifter --
+   never stuck, table only extended, every old slot keeps its address, values as for Insert_stable, invariant kept.
+   A changed statement (e.g. Reserve(mCount + count - 1)) has no meaning under act_of and this theorem no longer holds *)
+Theorem C16_sqrt_insert_n_from_facts : forall L, 0 <= L <= 62 -> forall alloc segs n c (items : Z -> Z) index count it,
+  Arr_Proofs.ginv (Gen_SegSqrt.GetSegItemIndexes L) SegModel_Inst.maxi (SegModel_Inst.SCq L) n c -> 0 <= index <= c -> 0 <= count -> c + count < SegModel_Inst.maxi -> (it < index \/ c + count <= it) ->
+  exists g', Arr_Proofs.run (Gen_SegSqrt.GetSegItemIndexes L) (Gen_SegSqrt.GetIndex L) alloc (map Arr_Proofs.act_of Gen_SegFacts.seg_insert_n) index count it (Arr_Proofs.mkg segs n c items) = Ok g' /\
+    Arr_Proofs.g_c g' = c + count /\ (forall k, k < n -> Arr_Proofs.g_segs g' k = segs k) /\ Arr_Proofs.ginv (Gen_SegSqrt.GetSegItemIndexes L) SegModel_Inst.maxi (SegModel_Inst.SCq L) (Arr_Proofs.g_n g') (c + count) /\
+    (forall i, 0 <= i < c -> Gen_ArrSqrt.pvGetItem (Gen_SegSqrt.GetSegItemIndexes L) (Arr_Proofs.g_segs g') (Arr_Proofs.g_n g') (c + count) i = Gen_ArrSqrt.pvGetItem (Gen_SegSqrt.GetSegItemIndexes L) segs n c i) /\
+    (forall j, j < index -> Arr_Proofs.g_items g' j = items j) /\ (forall j, index <= j < index + count -> Arr_Proofs.g_items g' j = items it) /\
+    (forall j, index + count <= j < c + count -> Arr_Proofs.g_items g' j = items (j - count)).
+Proof. exact Arr_Inst.sqrt_insert_n_from_facts. Qed.
+Print Assumptions C16_sqrt_insert_n_from_facts.
+
+Theorem C16_sqrt_remove_n_from_facts : forall L, 0 <= L <= 62 -> forall alloc segs n c (items : Z -> Z) index count,
+  Arr_Proofs.ginv (Gen_SegSqrt.GetSegItemIndexes L) SegModel_Inst.maxi (SegModel_Inst.SCq L) n c -> 0 <= index -> 0 <= count -> index + count <= c ->
+  exists g', Arr_Proofs.run (Gen_SegSqrt.GetSegItemIndexes L) (Gen_SegSqrt.GetIndex L) alloc (map Arr_Proofs.act_of Gen_SegFacts.seg_remove_n) index count 0 (Arr_Proofs.mkg segs n c items) = Ok g' /\
+    Arr_Proofs.g_c g' = c - count /\ Arr_Proofs.g_segs g' = segs /\ Arr_Proofs.g_n g' = n /\ Arr_Proofs.ginv (Gen_SegSqrt.GetSegItemIndexes L) SegModel_Inst.maxi (SegModel_Inst.SCq L) n (c - count) /\
+    (forall i, 0 <= i < c - count -> Gen_ArrSqrt.pvGetItem (Gen_SegSqrt.GetSegItemIndexes L) segs n (c - count) i = Gen_ArrSqrt.pvGetItem (Gen_SegSqrt.GetSegItemIndexes L) segs n c i) /\
+    (forall j, j < index -> Arr_Proofs.g_items g' j = items j) /\ (forall j, index <= j < c - count -> Arr_Proofs.g_items g' j = items (j + count)).
+Proof. exact Arr_Inst.sqrt_remove_n_from_facts. Qed.
+Print Assumptions C16_sqrt_remove_n_from_facts.
+
+(* sqrt: Insert(index, begin, end) with forward iterators and Insert(index, {...}) (both reach pvInsert #1: Dist, Reserve(mCount + count), the
+   range InsertNogrow = `count` AddBackNogrow calls as far as table and count are concerned): every old slot keeps its address *)
+Theorem C16_sqrt_range_insert_from_facts : forall L, 0 <= L <= 62 -> forall alloc segs n c (items : Z -> Z) index count,
+  Arr_Proofs.ginv (Gen_SegSqrt.GetSegItemIndexes L) SegModel_Inst.maxi (SegModel_Inst.SCq L) n c -> 0 <= count -> c + count < SegModel_Inst.maxi ->
+  exists g', Arr_Proofs.run (Gen_SegSqrt.GetSegItemIndexes L) (Gen_SegSqrt.GetIndex L) alloc (map Arr_Proofs.act_of Gen_SegFacts.seg_pvinsert_forward) index count 0 (Arr_Proofs.mkg segs n c items) = Ok g' /\
+    Arr_Proofs.g_c g' = c + count /\ (forall k, k < n -> Arr_Proofs.g_segs g' k = segs k) /\ Arr_Proofs.ginv (Gen_SegSqrt.GetSegItemIndexes L) SegModel_Inst.maxi (SegModel_Inst.SCq L) (Arr_Proofs.g_n g') (c + count) /\
+    (forall i, 0 <= i < c -> Gen_ArrSqrt.pvGetItem (Gen_SegSqrt.GetSegItemIndexes L) (Arr_Proofs.g_segs g') (Arr_Proofs.g_n g') (c + count) i = Gen_ArrSqrt.pvGetItem (Gen_SegSqrt.GetSegItemIndexes L) segs n c i).
+Proof. exact Arr_Inst.sqrt_range_insert_from_facts. Qed.
+Print Assumptions C16_sqrt_range_insert_from_facts.
+
+(* sqrt: single-pass Insert (pvInsert #2 -> ArrayShifter::Insert: one InsertCrt per item; InsertCrt executed from its facts: handler,
+   Reserve(mCount + 1), one-element shifter): after m items every slot that existed before the first keeps its address *)
+Theorem C16_sqrt_singlepass_insert_from_facts : forall L, 0 <= L <= 62 -> forall alloc m segs n c (items : Z -> Z) index (its : nat -> Z),
+  Arr_Proofs.ginv (Gen_SegSqrt.GetSegItemIndexes L) SegModel_Inst.maxi (SegModel_Inst.SCq L) n c -> 0 <= index <= c -> c + Z.of_nat m < SegModel_Inst.maxi -> (forall k, c + Z.of_nat m <= its k) ->
+  exists g', Arr_Proofs.insert_crt_times (Gen_SegSqrt.GetSegItemIndexes L) (Gen_SegSqrt.GetIndex L) alloc m index its (Arr_Proofs.mkg segs n c items) = Ok g' /\ Arr_Proofs.g_c g' = c + Z.of_nat m /\
+    (forall k, k < n -> Arr_Proofs.g_segs g' k = segs k) /\ Arr_Proofs.ginv (Gen_SegSqrt.GetSegItemIndexes L) SegModel_Inst.maxi (SegModel_Inst.SCq L) (Arr_Proofs.g_n g') (c + Z.of_nat m) /\
+    (forall i, 0 <= i < c -> Gen_ArrSqrt.pvGetItem (Gen_SegSqrt.GetSegItemIndexes L) (Arr_Proofs.g_segs g') (Arr_Proofs.g_n g') (c + Z.of_nat m) i = Gen_ArrSqrt.pvGetItem (Gen_SegSqrt.GetSegItemIndexes L) segs n c i).
+Proof. exact Arr_Inst.sqrt_singlepass_insert_from_facts. Qed.
+Print Assumptions C16_sqrt_singlepass_insert_from_facts.
+
+(* sqrt: Remove(filter) ends with one RemoveBack(remCount) (pinned fact) after assignments through operator[]: the table is untouched and every
+   remaining slot keeps its address *)
+Theorem C16_sqrt_removeback_stable : forall L, 0 <= L <= 62 -> forall segs n c k, Arr_Proofs.ginv (Gen_SegSqrt.GetSegItemIndexes L) SegModel_Inst.maxi (SegModel_Inst.SCq L) n c -> 0 <= k <= c ->
+  Gen_ArrSqrt.RemoveBack (Gen_SegSqrt.GetSegItemIndexes L) (Gen_SegSqrt.GetItemCount L) segs n c k = Ok (tt, c - k) /\ Arr_Proofs.ginv (Gen_SegSqrt.GetSegItemIndexes L) SegModel_Inst.maxi (SegModel_Inst.SCq L) n (c - k) /\
+  (forall i, 0 <= i < c - k -> Gen_ArrSqrt.pvGetItem (Gen_SegSqrt.GetSegItemIndexes L) segs n (c - k) i = Gen_ArrSqrt.pvGetItem (Gen_SegSqrt.GetSegItemIndexes L) segs n c i).
+Proof. exact Arr_Inst.sqrt_removeback_stable. Qed.
+Print Assumptions C16_sqrt_removeback_stable.
+
+(* cnst: SegmentedArray::Insert(index, count, item) EXECUTED FROM ITS AST FACTS (the statement list read off the clang AST on every
+   run, each statement interpreted by act_of as a call of regenerated code): overflow guard, handler, Reserve(mCount + count), shifter --
+   never stuck, table only extended, every old slot keeps its address, values as for Insert_stable, invariant kept.
+   A changed statement (e.g. Reserve(mCount + count - 1)) has no meaning under act_of and this theorem no longer holds *)
+Theorem C16_cnst_insert_n_from_facts : forall L, 0 <= L <= 62 -> forall alloc segs n c (items : Z -> Z) index count it,
+  Arr_Proofs.ginv (Gen_SegCnst.GetSegItemIndexes L) SegModel_Inst.maxi (SegModel_Inst.SCc L) n c -> 0 <= index <= c -> 0 <= count -> c + count < SegModel_Inst.maxi -> (it < index \/ c + count <= it) ->
+  exists g', Arr_Proofs.run (Gen_SegCnst.GetSegItemIndexes L) (Gen_SegCnst.GetIndex L) alloc (map Arr_Proofs.act_of Gen_SegFacts.seg_insert_n) index count it (Arr_Proofs.mkg segs n c items) = Ok g' /\
+    Arr_Proofs.g_c g' = c + count /\ (forall k, k < n -> Arr_Proofs.g_segs g' k = segs k) /\ Arr_Proofs.ginv (Gen_SegCnst.GetSegItemIndexes L) SegModel_Inst.maxi (SegModel_Inst.SCc L) (Arr_Proofs.g_n g') (c + count) /\
+    (forall i, 0 <= i < c -> Gen_ArrSqrt.pvGetItem (Gen_SegCnst.GetSegItemIndexes L) (Arr_Proofs.g_segs g') (Arr_Proofs.g_n g') (c + count) i = Gen_ArrSqrt.pvGetItem (Gen_SegCnst.GetSegItemIndexes L) segs n c i) /\
+    (forall j, j < index -> Arr_Proofs.g_items g' j = items j) /\ (forall j, index <= j < index + count -> Arr_Proofs.g_items g' j = items it) /\
+    (forall j, index + count <= j < c + count -> Arr_Proofs.g_items g' j = items (j - count)).
+Proof. exact Arr_Inst.cnst_insert_n_from_facts. Qed.
+Print Assumptions C16_cnst_insert_n_from_facts.
+
+Theorem C16_cnst_remove_n_from_facts : forall L, 0 <= L <= 62 -> forall alloc segs n c (items : Z -> Z) index count,
+  Arr_Proofs.ginv (Gen_SegCnst.GetSegItemIndexes L) SegModel_Inst.maxi (SegModel_Inst.SCc L) n c -> 0 <= index -> 0 <= count -> index + count <= c ->
+  exists g', Arr_Proofs.run (Gen_SegCnst.GetSegItemIndexes L) (Gen_SegCnst.GetIndex L) alloc (map Arr_Proofs.act_of Gen_SegFacts.seg_remove_n) index count 0 (Arr_Proofs.mkg segs n c items) = Ok g' /\
+    Arr_Proofs.g_c g' = c - count /\ Arr_Proofs.g_segs g' = segs /\ Arr_Proofs.g_n g' = n /\ Arr_Proofs.ginv (Gen_SegCnst.GetSegItemIndexes L) SegModel_Inst.maxi (SegModel_Inst.SCc L) n (c - count) /\
+    (forall i, 0 <= i < c - count -> Gen_ArrSqrt.pvGetItem (Gen_SegCnst.GetSegItemIndexes L) segs n (c - count) i = Gen_ArrSqrt.pvGetItem (Gen_SegCnst.GetSegItemIndexes L) segs n c i) /\
+    (forall j, j < index -> Arr_Proofs.g_items g' j = items j) /\ (forall j, index <= j < c - count -> Arr_Proofs.g_items g' j = items (j + count)).
+Proof. exact Arr_Inst.cnst_remove_n_from_facts. Qed.
+Print Assumptions C16_cnst_remove_n_from_facts.
+
+(* cnst: Insert(index, begin, end) with forward iterators and Insert(index, {...}) (both reach pvInsert #1: Dist, Reserve(mCount + count), the
+   range InsertNogrow = `count` AddBackNogrow calls as far as table and count are concerned): every old slot keeps its address *)
+Theorem C16_cnst_range_insert_from_facts : forall L, 0 <= L <= 62 -> forall alloc segs n c (items : Z -> Z) index count,
+  Arr_Proofs.ginv (Gen_SegCnst.GetSegItemIndexes L) SegModel_Inst.maxi (SegModel_Inst.SCc L) n c -> 0 <= count -> c + count < SegModel_Inst.maxi ->
+  exists g', Arr_Proofs.run (Gen_SegCnst.GetSegItemIndexes L) (Gen_SegCnst.GetIndex L) alloc (map Arr_Proofs.act_of Gen_SegFacts.seg_pvinsert_forward) index count 0 (Arr_Proofs.mkg segs n c items) = Ok g' /\
+    Arr_Proofs.g_c g' = c + count /\ (forall k, k < n -> Arr_Proofs.g_segs g' k = segs k) /\ Arr_Proofs.ginv (Gen_SegCnst.GetSegItemIndexes L) SegModel_Inst.maxi (SegModel_Inst.SCc L) (Arr_Proofs.g_n g') (c + count) /\
+    (forall i, 0 <= i < c -> Gen_ArrSqrt.pvGetItem (Gen_SegCnst.GetSegItemIndexes L) (Arr_Proofs.g_segs g') (Arr_Proofs.g_n g') (c + count) i = Gen_ArrSqrt.pvGetItem (Gen_SegCnst.GetSegItemIndexes L) segs n c i).
+Proof. exact Arr_Inst.cnst_range_insert_from_facts. Qed.
+Print Assumptions C16_cnst_range_insert_from_facts.
+
+(* cnst: single-pass Insert (pvInsert #2 -> ArrayShifter::Insert: one InsertCrt per item; InsertCrt executed from its facts: handler,
+   Reserve(mCount + 1), one-element shifter): after m items every slot that existed before the first keeps its address *)
+Theorem C16_cnst_singlepass_insert_from_facts : forall L, 0 <= L <= 62 -> forall alloc m segs n c (items : Z -> Z) index (its : nat -> Z),
+  Arr_Proofs.ginv (Gen_SegCnst.GetSegItemIndexes L) SegModel_Inst.maxi (SegModel_Inst.SCc L) n c -> 0 <= index <= c -> c + Z.of_nat m < SegModel_Inst.maxi -> (forall k, c + Z.of_nat m <= its k) ->
+  exists g', Arr_Proofs.insert_crt_times (Gen_SegCnst.GetSegItemIndexes L) (Gen_SegCnst.GetIndex L) alloc m index its (Arr_Proofs.mkg segs n c items) = Ok g' /\ Arr_Proofs.g_c g' = c + Z.of_nat m /\
+    (forall k, k < n -> Arr_Proofs.g_segs g' k = segs k) /\ Arr_Proofs.ginv (Gen_SegCnst.GetSegItemIndexes L) SegModel_Inst.maxi (SegModel_Inst.SCc L) (Arr_Proofs.g_n g') (c + Z.of_nat m) /\
+    (forall i, 0 <= i < c -> Gen_ArrSqrt.pvGetItem (Gen_SegCnst.GetSegItemIndexes L) (Arr_Proofs.g_segs g') (Arr_Proofs.g_n g') (c + Z.of_nat m) i = Gen_ArrSqrt.pvGetItem (Gen_SegCnst.GetSegItemIndexes L) segs n c i).
+Proof. exact Arr_Inst.cnst_singlepass_insert_from_facts. Qed.
+Print Assumptions C16_cnst_singlepass_insert_from_facts.
+
+(* cnst: Remove(filter) ends with one RemoveBack(remCount) (pinned fact) after assignments through operator[]: the table is untouched and every
+   remaining slot keeps its address *)
+Theorem C16_cnst_removeback_stable : forall L, 0 <= L <= 62 -> forall segs n c k, Arr_Proofs.ginv (Gen_SegCnst.GetSegItemIndexes L) SegModel_Inst.maxi (SegModel_Inst.SCc L) n c -> 0 <= k <= c ->
+  Gen_ArrSqrt.RemoveBack (Gen_SegCnst.GetSegItemIndexes L) (fun _ : Z => Gen_SegCnst.GetItemCount L) segs n c k = Ok (tt, c - k) /\ Arr_Proofs.ginv (Gen_SegCnst.GetSegItemIndexes L) SegModel_Inst.maxi (SegModel_Inst.SCc L) n (c - k) /\
+  (forall i, 0 <= i < c - k -> Gen_ArrSqrt.pvGetItem (Gen_SegCnst.GetSegItemIndexes L) segs n (c - k) i = Gen_ArrSqrt.pvGetItem (Gen_SegCnst.GetSegItemIndexes L) segs n c i).
+Proof. exact Arr_Inst.cnst_removeback_stable. Qed.
+Print Assumptions C16_cnst_removeback_stable.
